@@ -349,6 +349,9 @@ impl<'env> Executor<'env> {
                 }};
             }
 
+            #[cfg(feature = "verif_hooks")]
+            crate::verif_hooks::instructions::on_instruction(instr);
+
             // if the fuel consumption feature is enabled, track the fuel
             // consumption here.
             #[cfg(feature = "fuel")]
